@@ -49,6 +49,22 @@ class PyRaise(Exception):
         self.name = name
 
 
+_EXC_PARENT = {
+    "UnicodeEncodeError": "UnicodeError", "UnicodeDecodeError": "UnicodeError", "UnicodeError": "ValueError", "KeyError": "LookupError", "IndexError": "LookupError",
+    "NotImplementedError": "RuntimeError", "RecursionError": "RuntimeError", "ZeroDivisionError": "ArithmeticError", "OverflowError": "ArithmeticError",
+    "FileNotFoundError": "OSError", "PermissionError": "OSError", "ModuleNotFoundError": "ImportError", "JSONDecodeError": "ValueError", "UnsupportedOperation": "OSError",
+}
+
+
+def _exc_ancestors(name: str):
+    name = name.split(".")[-1] if name != "struct.error" else name
+    out = [name]
+    while name in _EXC_PARENT:
+        name = _EXC_PARENT[name]
+        out.append(name)
+    return out
+
+
 class ReturnValue(Exception):
     def __init__(self, v):
         self.v = v
@@ -595,7 +611,7 @@ class Evaluator:
                             names = [ast.unparse(x).split(".")[-1] for x in h.type.elts]
                         else:
                             names = [ast.unparse(h.type).split(".")[-1]]
-                        if names is None or pe.name in names or "Exception" in names or "BaseException" in names or (pe.name in ("IndexError", "KeyError") and "LookupError" in names):
+                        if names is None or "Exception" in names or "BaseException" in names or any(a in names for a in _exc_ancestors(pe.name)):
                             handled = True
                             try:
                                 self._block(h.body)
